@@ -76,10 +76,19 @@ def gen_c03_wait(rnd, sid):
                 exc_handler=True, run_empty=True, deliver_at=[])
 
 
+def gen_c03_seed(rnd, sid):
+    """execute_new_loop is given a start signal whose source belongs to an enclosing loop: the signal waits for that loop (the nested loop starts empty)"""
+    hs = [dict(cls="U0", hid=0, data=None, scripts=[[["reg_source", ["src", 0]]] + ([["enq", "U2", 0, None, sid.next()]] if rnd.random() < 0.5 else []) +
+                                                    [["new_loop", "U1", 0, sid.next(), ["src", 0]]]]),
+          dict(cls="U1", hid=1, data=None, scripts=[[["close_loop"]], []]), dict(cls="U2", hid=2, data=None, scripts=[[], []])]
+    return dict(op="machine", mode="c03", width=80, screens=[], handlers=hs, init=[["enq", "U0", 0, None, sid.next()]], stdin=[], quit_cb=None, quit_screen=None,
+                exc_handler=True, run_empty=True, deliver_at=[], _adapter_only=True)
+
+
 def generate(rnd, tier):
     n = 500 if tier == "quick" else 6000
     sid = SidCounter()
-    cases = [gen_c03_wait(rnd, sid) for _ in range(n // 10)] + [gen_c03(rnd, sid) for _ in range(n)] + [gen_c03_chain(rnd, sid) for _ in range(n)] + [gen_case(rnd, "loop", sid) for _ in range(n // 2)] + [gen_case(rnd, "app", sid) for _ in range(n // 4)]
+    cases = [gen_c03_seed(rnd, sid) for _ in range(n // 25)] + [gen_c03_wait(rnd, sid) for _ in range(n // 10)] + [gen_c03(rnd, sid) for _ in range(n)] + [gen_c03_chain(rnd, sid) for _ in range(n)] + [gen_case(rnd, "loop", sid) for _ in range(n // 2)] + [gen_case(rnd, "app", sid) for _ in range(n // 4)]
     if tier == "thorough":
         from harness.gen.exhaustive import loop_programs
         cases += list(loop_programs(sid))          # small-scope exhaustive: 3 663 programs
@@ -108,6 +117,10 @@ def monitor(case, obs):
                 for l in reversed(lv):
                     if tuple(src) in sources.get(l, ()): tgt = l; break
             expect[sid] = tgt
+        if ev[0] == "api" and ev[1] == "new_loop" and len(ev) > 5 and ev[5] is not None and x.cls_handlers.get(ev[2]):
+            # the start signal of a nested loop is routed like any other signal: one whose source belongs to an enclosing loop waits there
+            for l in reversed(lv):
+                if tuple(ev[5]) in sources.get(l, ()): expect[ev[4]] = l; break
         if ev[0] == "H" and ev[2] in expect and ev[2] not in seen:
             seen.add(ev[2])
             if expect[ev[2]] in lv and ctx["lvl"] != expect[ev[2]]:
